@@ -14,7 +14,7 @@ import copy as _copy
 from typing import List
 import billiard.pool as bp
 from billiard.exceptions import TimeLimitExceeded
-from harness.hbase import fail, tier, Prune, ND, trace, PART, NPART, untraced
+from harness.hbase import fail, tier, Prune, ND, trace, PART, NPART, untraced, NDCode, CODEMAX
 from harness import world as W
 
 K = tier(3, 4)
@@ -41,14 +41,20 @@ def _opt(x):
     return x if x else None
 
 
-def _limits(pt, ps, jt, js, ev, nproc, leaders, other_kind, obeys, want):
+def _limits(pt, ps, jt, js, ev, nproc, leaders, other_kind, obeys, want, replaced=None):
     w = W.World(leaders=leaders)
     with untraced():
         bp.copy = HookedCopy
         HookedCopy.hook = None
     p = w.make_pool(nproc, timeout=_opt(pt), soft_timeout=_opt(ps), enable_timeouts=True)
-    nd = ND(ev)
+    nd = ev if hasattr(ev, 'draw') else ND(ev)
     calls = []
+    if replaced is not None:
+        # the job runs on a replacement worker: a worker of the initial set exits while idle and supervision replaces it first
+        w.w_exit(p._pool[0], replaced)
+        w.tick()
+        if len(p._pool) != nproc:
+            raise Prune()
 
     def tcb(soft=None, timeout=None):
         calls.append((soft, timeout))
@@ -61,7 +67,7 @@ def _limits(pt, ps, jt, js, ev, nproc, leaders, other_kind, obeys, want):
         others.append(W.Observer(p.imap_unordered(W.val, ['m0', 'm1']), 'imapu'))
     A = W.Observer(p.apply_async(W.val, ('A',), timeout=_opt(jt), soft_timeout=_opt(js), timeout_callback=tcb), 'apply')
     w.feed()
-    wk = p._pool[0]
+    wk = p._pool[0] if replaced is None else p._pool[len(p._pool) - 1]       # replacements are appended
     wk.obeys_term = obeys
     w.w_take(wk)                       # the first request queued is A's (apply goes straight to the pipe)
     if wk.cur[0] != A.h._job:
@@ -232,6 +238,45 @@ def h_soft_twin(ps: int, js: int, jt: int, ev: List[int], obeys: bool) -> bool:
     post: _
     """
     return _run(0, ps, jt, js, ev, obeys, False, 'soft')
+
+
+# ---------------------------------------------------------------------------
+# the job runs on a worker that replaced one of the initial set: the scanner finds the process that runs the job *now*
+
+
+
+def _replaced(code, ts, want):
+    # PART: bit0 pool size, bit1 job-level / pool-level limits, bit2 how the replaced worker went (clean exit / killed)
+    nd = NDCode(code, ts)
+    nproc = 1 + PART % 2
+    joblevel = (PART // 2) % 2 == 1
+    status = (0, -9)[(PART // 4) % 2]
+    S, H = ((10, 0), (0, 30), (10, 30))[nd.draw(0, 2)]
+    if joblevel:
+        return _limits(0, 0, H, S, nd, nproc, False, 'none', True, want, replaced=status)
+    return _limits(H, S, 0, 0, nd, nproc, False, 'none', True, want, replaced=status)
+
+
+def h_replaced(code: int, ts: List[int]) -> bool:
+    """
+    pre: 0 <= code < CODEMAX and len(ts) == K
+    post: _
+    """
+    try:
+        return _replaced(code, ts, None)
+    except Prune:
+        return True
+
+
+def h_replaced_twin(code: int, ts: List[int]) -> bool:
+    """
+    pre: 0 <= code < CODEMAX and len(ts) == K
+    post: _
+    """
+    try:
+        return _replaced(code, ts, 'soft')
+    except Prune:
+        return True
 
 
 # ---------------------------------------------------------------------------
